@@ -50,6 +50,7 @@ type Check struct {
 	notes      []string
 	t0         time.Time
 	replayKey  string
+	selfTest   []MutantResult
 }
 
 func newCheck(prop, tier string, p *Program) *Check {
@@ -273,6 +274,7 @@ func (c *Check) Finish(verifDir string, seed int64, explanation string, assumpti
 			"exhaustive":             false,
 			"checker_cmd":            strings.Join(os.Args, " "),
 			"load_s":                 c.P.LoadS,
+			"selftest_mutants":       c.selfTest,
 		},
 		"assumptions": assumptions,
 		"wall_s":      time.Since(c.t0).Seconds() + c.P.LoadS,
